@@ -96,3 +96,43 @@ def run (line : String) : String :=
   | _ => "bad-case"
 
 end LolHtml.Lane.TbSim
+
+namespace LolHtml.Lane.TbSim
+open LolHtml LolHtml.Model LolHtml.Spec.TreeBuilder LolHtml.Lane.Tb
+
+/-- lane `tbi` (Lean only): empirical check of structural invariants on template-free cases -/
+def checkInv (line : String) : String :=
+  match parseCase line with
+  | none => "bad-case"
+  | some (sc, ts) =>
+    if ts.any (fun t => match t with | .start .template _ _ => true | _ => false) then "skip"
+    else
+      let c : Cfg := { scripting := sc }
+      let pre : List Mode := [.initial, .beforeHtml, .beforeHead, .inHead, .inHeadNoscript, .afterHead]
+      let fr : List Mode := [.inFrameset, .afterFrameset, .afterAfterFrameset]
+      let rec go (fuel : Nat) (k : Nat) (s : State) (tk : TkState) : List Token → String
+        | [] => "ok"
+        | t :: ts =>
+          match fuel with
+          | 0 => "fuel"
+          | fuel + 1 =>
+          if !passes tk t then go fuel (k + 1) s tk ts
+          else
+            let o := step c s t
+            let s' := o.st
+            let m := if s'.mode == .text || s'.mode == .inTableText then s'.origMode else s'.mode
+            let bad :=
+              if pre.contains m || fr.contains m then none
+              else
+                let r := s'.stack.reverse
+                let bodyOk := (r.getD 0 default).isHtml .html && (r.getD 1 default).isHtml .body
+                let st := if s'.mode == .text then s'.stack.tail else s'.stack
+                let rm := resetLoop c [] s'.headPtr.isNone st
+                let modeOk := rm == m || (rm == .inBody && (m == .afterBody || m == .afterAfterBody))
+                if !bodyOk then some "body" else if !modeOk then some s!"mode {showMode m} reset {showMode rm}" else none
+            match bad with
+            | some b => s!"viol@{k} {b} stack={showStack s'}"
+            | none => go fuel (k + 1) s' (nextTk tk t o.sw) ts
+      go (ts.length + 1) 0 .init .data ts
+
+end LolHtml.Lane.TbSim
